@@ -366,6 +366,7 @@ impl Clone for CompiledLookahead {
     fn clone(&self) -> (r: Self) ensures r == *self { unimplemented!() }
 }
 ''', label='trusted: derived Clone of CompiledLookahead is structural'),
+        RawFile('../common/dfa_wf.rs'),
         RawFile('spec.rs'),
         RawFile('../common/blen_lemmas.rs'),
         RawFile('unique_lemmas.rs'),
